@@ -33,6 +33,15 @@ def _seed_corpus(ctx, d):
         pts = b"".join(b"%.4f %.4f\n" % (r.uniform(-3, 3), r.uniform(-3, 3)) for _ in range([1, 10, 200, 50][k]))
         w("txt", "valid%d" % k, pts, k, k)
     w("txt", "edge", b"6 6\n-6 -6\n5.999 -5.999\n3.5 3.5\n-3.5 3.5\n0 0\n1e9 -1e9\nnan 1\n1 inf\n1e39 2\n", 4, 1)
+    # coordinates exactly on cell boundaries of the grids the target uses (4, 5, 8, 16, 17, 32 cells; half width 6 and 3.5)
+    import struct
+    for gi, g in enumerate([4, 5, 8, 16, 17, 32]):
+        for ei, ext in enumerate([3.5, 6.0]):
+            body = b""
+            for cell in (-1.0, -0.5, 0.0, 0.5, g - 1.0, g - 0.5, g, g + 0.5):
+                q = struct.unpack("f", struct.pack("f", ext * (cell / g - 0.5)))[0]
+                body += b"%.9g 0\n0 %.9g\n%.9g %.9g\n" % (q, q, q, q)
+            w("txt", "celledge_%d_%d" % (g, ei), body, gi, ei)
     w("txt", "empty", b"", 0, 0)
     w("txt", "nolf", b"0.1 0.2 0.3", 5, 0)
     # a configuration file as the program writes it itself, plus hand-made ones
